@@ -232,8 +232,25 @@ func (s *shared) do(tid, oi int, op cop) {
 			a := op.Arg2 % 6
 			opts.Amount = &a
 		}
+		// bounds taken from the entries held from the start
+		init := s.initial.Sorted()
+		if len(init) > 0 {
+			pick := func(k int) cid.Cid { c, _ := cid.Decode(init[k%len(init)]); return c }
+			switch (op.Arg / 3) % 5 {
+			case 1:
+				opts.LTE = []cid.Cid{pick(op.Arg2)}
+			case 2:
+				opts.LTE = []cid.Cid{pick(op.Arg2), pick(op.Arg2 + 1)}
+			case 3:
+				opts.LT = []cid.Cid{pick(op.Arg2)}
+			case 4:
+				opts.GTE = pick(op.Arg2)
+			}
+		}
 		if err := l.Iterator(opts, ch); err != nil {
-			s.fail("T%d op %d: iterator failed: %v", tid, oi, err)
+			if !s.bounded { // after a size-bounded merge a bound may legitimately be gone
+				s.fail("T%d op %d: iterator failed: %v", tid, oi, err)
+			}
 			return
 		}
 		var seq []string
